@@ -708,4 +708,73 @@ fn u16_index_walk_visits_every_live_entry() {
 	kani::cover!(live >= 2 && page[0] == 0, "live entries behind an empty slot");
 }
 
+
+// ================================================================== U17: value iteration visits every value table of the column
+pub(crate) static mut ITV_N: usize = 0;
+pub(crate) static mut ITV_TIER: [u8; 256] = [0; 256];
+pub(crate) static mut ITV_CB: usize = 0;
+pub(crate) fn stub_iter_while<L: LogQuery, F: FnMut(u64, u32, Vec<u8>, bool) -> bool>(t: &ValueTable, _log: &L, mut f: F) -> Result<()> {
+	// contract of ValueTable::iter_while: calls `f` for the live entries of this table (here: one live entry per table)
+	unsafe {
+		if ITV_N < 256 {
+			ITV_TIER[ITV_N] = t.id.size_tier();
+		}
+		ITV_N += 1;
+	}
+	let _ = f(1, 7, Vec::new(), false);
+	Ok(())
+}
+#[kani::proof]
+#[kani::unwind(6)]
+#[kani::stub(crate::table::ValueTable::iter_while, stub_iter_while)]
+#[kani::stub(std::hash::RandomState::new, crate::verif_stubs::random_state_new)]
+#[kani::stub(parking_lot::RawRwLock::lock_shared_slow, crate::verif_stubs::lock_shared_slow)]
+#[kani::stub(parking_lot::RawRwLock::unlock_shared_slow, crate::verif_stubs::unlock_shared_slow)]
+#[kani::stub(parking_lot::RawRwLock::lock_exclusive_slow, crate::verif_stubs::lock_exclusive_slow)]
+#[kani::stub(parking_lot::RawRwLock::unlock_exclusive_slow, crate::verif_stubs::unlock_exclusive_slow)]
+#[kani::stub(std::fmt::format, crate::verif_stubs::fmt_format)]
+fn u17_iter_values_visits_every_table() {
+	// the contract does not depend on how many value tables the column has: three here (the real column has 256; building
+	// 256 tables on the heap exceeds the CBMC budget)
+	let col = std::mem::ManuallyDrop::new(HashColumn {
+		col: 0,
+		tables: RwLock::new(Tables {
+			index: crate::index::verif_index::mk_table(0, 16),
+			value: vec![
+				crate::table::verif_table::mk_table_tier(32, false, true, 0),
+				crate::table::verif_table::mk_table_tier(33, false, true, 1),
+				crate::table::verif_table::mk_table_tier(4096, true, true, 255),
+			],
+			ref_count: None,
+		}),
+		reindex: RwLock::new(Reindex { queue: VecDeque::new(), progress: AtomicU64::new(0) }),
+		ref_count_cache: None,
+		path: std::path::PathBuf::new(),
+		preimage: false,
+		uniform_keys: false,
+		collect_stats: false,
+		ref_counted: true,
+		append_only: false,
+		salt: [0u8; 32],
+		stats: unsafe { std::mem::MaybeUninit::uninit().assume_init() },
+		compression: Compress::new(crate::compress::CompressionType::NoCompression, u32::MAX),
+		db_version: crate::options::CURRENT_VERSION,
+	});
+	unsafe {
+		ITV_N = 0;
+		ITV_CB = 0;
+	}
+	let log = std::mem::ManuallyDrop::new(crate::log::verif_log::mk_log());
+	let r = ok(col.iter_values(&log, |st| {
+		unsafe {
+			ITV_CB += 1;
+		}
+		st.rc == 7
+	}));
+	assert!(r.is_some(), "U17.iter_values.no_error");
+	assert!(unsafe { ITV_N } == 3, "U17.iter_values.every_value_table_visited_once");
+	assert!(unsafe { ITV_TIER[0] } == 0 && unsafe { ITV_TIER[1] } == 1 && unsafe { ITV_TIER[2] } == 255, "U17.iter_values.tables_visited_in_order_including_the_blob_table");
+	assert!(unsafe { ITV_CB } == 3, "U17.iter_values.callback_receives_every_live_value_with_its_count");
+}
+
 /*@@GENERATED:column@@*/
